@@ -365,8 +365,12 @@ Definition r_body (h : impl_hdr) (b : body) : toks :=
   | BCopy => []
   | BCloneStruct name sh fs => r_clone_struct name sh fs
   | BCloneEnum vs => r_clone_enum vs
-  | BDebugStruct d =>
-      fmt_sig ++ tbrace (r_debug_expr d (fun f => q "&& self ." ++ r_member (fl_member f)))
+  | BDebugStruct d dbl =>
+      fmt_sig ++ tbrace (r_debug_expr d (fun f =>
+                           (match dbl with
+                            | Some i => if fl_index f =? i then q "&& self ." else q "& self ."
+                            | None => q "& self ."
+                            end) ++ r_member (fl_member f)))
   | BDebugEnum vs =>
       fmt_sig ++
       tbrace (match_self vs ++
